@@ -511,6 +511,47 @@ pub fn data_basis(k: usize) -> (usize, Vec<Vec<u8>>) {
     (slots * 2, data)
 }
 
+/// Structured data built from the symbol values a data-dependent short cut would single out: shard 0 is
+/// all zero, shards 1 and 2 are equal, shard 3 is all 0xFFFF, shard 4 has equal low and high halves in every
+/// block, the others cycle through {0x0000, 0x0001, 0xFFFF, 0x00FF, 0xFF00, 0x8000, 0x0100, 0x0101, 0xFFFE}
+/// one symbol per slot (phase depending on the shard). Symbols are written with the documented placement
+/// (low bytes first, then high bytes, per block).
+pub fn data_special(k: usize, bytes: usize) -> Vec<Vec<u8>> {
+    const SYMS: [u16; 9] = [0x0000, 0x0001, 0xFFFF, 0x00FF, 0xFF00, 0x8000, 0x0100, 0x0101, 0xFFFE];
+    // fill every symbol slot of a shard from f(slot) with the documented placement
+    let fill = |shard: &mut [u8], f: &dyn Fn(usize) -> u16| {
+        let mut start = 0;
+        let mut block = 0;
+        while start < shard.len() {
+            let t = (shard.len() - start).min(64);
+            let half = t / 2;
+            for s in 0..half {
+                let sym = f(block * 32 + s);
+                shard[start + s] = sym as u8;
+                shard[start + half + s] = (sym >> 8) as u8;
+            }
+            start += t;
+            block += 1;
+        }
+    };
+    (0..k)
+        .map(|i| {
+            let mut sh = vec![0u8; bytes];
+            match i % 7 {
+                0 => {}
+                1 | 2 => fill(&mut sh, &|s| SYMS[(s * 5 + 3) % 9]),
+                3 => sh.iter_mut().for_each(|b| *b = 0xFF),
+                4 => fill(&mut sh, &|s| {
+                    let v = (s as u16).wrapping_mul(37).wrapping_add(11) & 0xFF;
+                    v | v << 8
+                }),
+                _ => fill(&mut sh, &|s| SYMS[(s + 2 * i) % 9]),
+            }
+            sh
+        })
+        .collect()
+}
+
 pub fn data_ones(k: usize, bytes: usize) -> Vec<Vec<u8>> {
     vec![vec![0xFFu8; bytes]; k]
 }
